@@ -5,8 +5,8 @@ From Coq Require Import List ZArith NArith QArith Extraction ExtrOcamlBasic.
 From LMBase Require Import Res ListX IEEE.
 From LMPwm Require Import GenComplement PwmModel PwmCheck.
 
-Definition f32_of_bits := F32.of_bits.
-Definition f32_to_bits := F32.to_bits.
+Definition xf_of_bits := F32.of_bits.
+Definition xf_to_bits := F32.to_bits.
 Definition f32_div := F32.div.
 Definition f32_is_nan := F32.is_nan.
 Definition f32_le := F32.le.
@@ -19,7 +19,7 @@ Definition rc_seq_dna := rc_seq dna_comp.
 
 Extraction Language OCaml.
 Extraction "pwm_model.ml"
-  F32ops f32_of_bits f32_to_bits f32_div f32_is_nan f32_le f32_zero f32_ninf
+  F32ops xf_of_bits xf_to_bits f32_div f32_is_nan f32_le f32_zero f32_ninf
   from_sequences count_new counts_spec_matrix
   pseudo_scalar bg_uniform bg_new bg_from_counts bg_from_sequences
   to_freq freq_new to_weight into_scoring to_scoring_with_base to_scoring flog rescale
@@ -27,6 +27,6 @@ Extraction "pwm_model.ml"
   rc_f32 rc_N rc_seq_dna
   dna_K dna_symbols dna_str dna_default dna_comp protein_K protein_symbols protein_str protein_default
   f32_to_Q f32_same f32_close fm_same fm_close cm_same row_same
-  check_counts check_freq check_weight check_score_cell check_window window_clean
+  check_counts check_freq check_weight check_rescale check_score_cell check_window window_clean
   bg_must_reject freq_must_reject check_rc_f32 check_rc_N complement_involutive_b
   strand_symmetric check_mirror.
